@@ -127,6 +127,7 @@ type runner struct {
 	witness    string
 	fifo       string
 	newf       string // does not exist when a run starts (O_EXCL creators)
+	dirp       string // a directory (free mode): it can be read-locked; whoever claims its write lock must really exclude
 	gc         bool   // run the garbage collector inside critical sections
 	mu         sync.Mutex
 	events     []Event
@@ -302,6 +303,12 @@ func (r *runner) actor(name string, ops []Op) func() {
 					f, err = lockedfile.OpenFile(r.newf, os.O_RDWR|os.O_CREATE, 0o666)
 				case "rnew":
 					f, err = lockedfile.Open(r.newf)
+				case "rdir":
+					// a directory can be opened for reading, and read-locked like any file
+					f, err = lockedfile.Open(r.dirp)
+				case "wdir":
+					// ... but not for writing: the call fails and holds nothing
+					f, err = lockedfile.Edit(r.dirp)
 				case "wa":
 					f, err = lockedfile.OpenFile(r.data, os.O_WRONLY|os.O_APPEND, 0o666)
 				case "wx":
@@ -330,6 +337,9 @@ func (r *runner) actor(name string, ops []Op) func() {
 				if o.Mode == "excl" || o.Mode == "wnew" || o.Mode == "rnew" {
 					dom = "new"
 				}
+				if o.Mode == "rdir" || o.Mode == "wdir" {
+					dom = "dir"
+				}
 				r.log(Event{Ev: "acq", A: name, Op: o.Op, Mode: o.Mode, File: dom})
 				// the late second Close of the handle this actor closed before (the `defer f.Close()` behind an explicit
 				// Close): it reports an error and touches nothing - least of all the lock somebody holds now
@@ -339,7 +349,7 @@ func (r *runner) actor(name string, ops []Op) func() {
 				if st != nil {
 					st.Close()
 				}
-				r.critical(name, o.Mode != "r" && o.Mode != "rnew", dom)
+				r.critical(name, o.Mode != "r" && o.Mode != "rnew" && o.Mode != "rdir", dom)
 				r.log(Event{Ev: "rel", A: name, Op: o.Op, Mode: o.Mode, File: dom})
 				err = f.Close()
 				staleMu.Lock()
@@ -352,14 +362,21 @@ func (r *runner) actor(name string, ops []Op) func() {
 					// (a Mutex value made by hand, as the package documents: "the Path field must be set")
 					mu = &lockedfile.Mutex{Path: r.mpath}
 				}
+				mdom := "mutex"
+				if o.Mode == "dir" {
+					// a Mutex whose path is a directory: Lock reports an error (a directory cannot be opened for
+					// writing) - or, if it ever returns an unlock function, it excludes the readers of that path
+					mu = &lockedfile.Mutex{Path: r.dirp}
+					mdom = "dir"
+				}
 				unlock, err := mu.Lock()
 				if err != nil {
 					r.log(Event{Ev: "ret", A: name, Op: o.Op, Res: "err"})
 					continue
 				}
-				r.log(Event{Ev: "acq", A: name, Op: o.Op, Mode: "w", File: "mutex"})
-				r.critical(name, true, "mutex")
-				r.log(Event{Ev: "rel", A: name, Op: o.Op, Mode: "w", File: "mutex"})
+				r.log(Event{Ev: "acq", A: name, Op: o.Op, Mode: "w", File: mdom})
+				r.critical(name, true, mdom)
+				r.log(Event{Ev: "rel", A: name, Op: o.Op, Mode: "w", File: mdom})
 				unlock()
 				r.log(Event{Ev: "ret", A: name, Op: o.Op, Res: "ok"})
 			}
@@ -584,7 +601,8 @@ func freeWorker(dir string, logPath string, gor, iters, id int, family string) {
 	if err != nil {
 		vutil.Fatalf("%v", err)
 	}
-	r := &runner{dir: dir, data: filepath.Join(dir, "data"), mpath: filepath.Join(dir, "lock"), witness: filepath.Join(dir, "witness"), free: lf}
+	r := &runner{dir: dir, data: filepath.Join(dir, "data"), mpath: filepath.Join(dir, "lock"), witness: filepath.Join(dir, "witness"), free: lf,
+		dirp: filepath.Join(dir, "adir")}
 	r.shared = lockedfile.MutexAt(r.mpath)
 	var wg sync.WaitGroup
 	for g := 0; g < gor; g++ {
@@ -597,7 +615,13 @@ func freeWorker(dir string, logPath string, gor, iters, id int, family string) {
 			for i := 0; i < iters; i++ {
 				tok := string(rune('A' + (id*7+g*3+i)%26))
 				if family == "C06" {
-					switch rng.Intn(7) {
+					switch rng.Intn(10) {
+					case 7:
+						ops = append(ops, Op{Op: "hold", Mode: "rdir"})
+					case 8:
+						ops = append(ops, Op{Op: "mutex", Mode: "dir"})
+					case 9:
+						ops = append(ops, Op{Op: "hold", Mode: "wdir"})
 					case 6:
 						ops = append(ops, Op{Op: "hold", Mode: "wa"})
 					case 0:
@@ -643,6 +667,7 @@ func freeRun(family string, procs, gor, iters int, n int64) *RunRec {
 	defer os.Remove(logPath)
 	init := []string{"i", "i"}
 	os.WriteFile(filepath.Join(dir, "data"), []byte("ii"), 0o666)
+	os.MkdirAll(filepath.Join(dir, "adir"), 0o777)
 	self, _ := os.Executable()
 	var cmds []*exec.Cmd
 	end := "done"
